@@ -101,7 +101,7 @@ def out_file(info, iface, placement):
 
 def precheck(root):
     """the generated module must compile before mockery sees it (otherwise: generator bug => inconclusive)"""
-    r = core.run(["go", "build", "-gcflags=-e", "./..."], cwd=root, env=core.scratch_env(), timeout=900)
+    r = core.run(["go", "build", "-trimpath", "-gcflags=-e", "./..."], cwd=root, env=core.scratch_env(), timeout=900)
     return r
 
 
@@ -145,7 +145,7 @@ ERR_RE = re.compile(r"^(?:vet: )?(?:\./)?([^\s:]+\.go):(\d+):(\d+): (.*)$", re.M
 
 
 def compile_all(root, info, extra_pkgs=()):
-    r = core.run(["go", "test", "-count=1", "-run", "^$", "-vet=off", "-gcflags=-e"] + (["-tags", tags_arg(info)] if info.get("tags") else []) + ["./..."],
+    r = core.run(["go", "test", "-trimpath", "-count=1", "-run", "^$", "-vet=off", "-gcflags=-e"] + (["-tags", tags_arg(info)] if info.get("tags") else []) + ["./..."],
                  cwd=root, env=core.scratch_env(), timeout=1200)
     return r
 
